@@ -226,14 +226,45 @@ Module BaseP.
         rewrite Forall_forall. intros r Hr. rewrite in_map_iff in Hr. destruct Hr as [n [<- _]]. apply row_length.
   Qed.
 
-  (** with a row one digit too short the round trip fails: ⊥ 3 243 on the implementation uses 5 digits
-      (pinned by the correspondence check), the model then returns 0 *)
-  Theorem antibase_base_short_refuted :
-    exists len b sh ns, 2 <= b /\ Forall (fun n => 0 <= n < 2 ^ 53) ns /\
-      anti_base b (fst (base len b sh ns)) (snd (base len b sh ns)) <> (sh, ns).
+  (** *** the row length the implementation computes *)
+  Section Auto.
+    Variable est : Z -> Z -> nat.
+    Variable b : Z.
+    Hypothesis Hb : 2 <= b.
+    (** the only fact needed about the floating-point logarithm: its floor is at most one digit short *)
+    Definition est_close (n : Z) : Prop := n <> 0 -> Z.abs n < b ^ Z.of_nat (S (est b n)).
+
+    Lemma digits_needed_enough : forall n, est_close n -> Z.abs n < b ^ Z.of_nat (digits_needed true est b n).
+    Proof.
+      intros n Hc. unfold digits_needed. destruct (Z.eqb_spec n 0) as [->|Hn].
+      - cbn. lia.
+      - cbn [andb]. replace (1 <? b) with true by (symmetry; apply Z.ltb_lt; lia). cbn [andb].
+        destruct (Z.leb_spec (b ^ Z.of_nat (est b n)) (Z.abs n)); [apply Hc; assumption | assumption].
+    Qed.
+
+    Lemma fold_max_ge_nat : forall l x, In x l -> (x <= fold_right Nat.max O l)%nat.
+    Proof. induction l; intros x H; [destruct H|]. cbn [fold_right]. destruct H as [->|H]; [lia | specialize (IHl _ H); lia]. Qed.
+
+    (** ⌝⊥ b (⊥ b x) = x with the row length computed as the repaired code does, for every base >= 2 *)
+    Theorem antibase_base_auto : forall sh ns,
+      Forall est_close ns -> Z.of_nat (length ns) = zprod sh ->
+      anti_base b (fst (base_auto true est b sh ns)) (snd (base_auto true est b sh ns)) = (sh, ns).
+    Proof.
+      intros sh ns Hc Hlen. unfold base_auto. apply antibase_base; [assumption | | assumption].
+      rewrite Forall_forall in *. intros n Hin.
+      eapply Z.lt_le_trans; [apply digits_needed_enough; apply Hc; assumption|].
+      apply Z.pow_le_mono_r; [lia|]. apply inj_le. apply fold_max_ge_nat. apply in_map. assumption.
+    Qed.
+  End Auto.
+
+  (** record of the defect repaired by dfd90e9: before the repair (no correction) an estimate that is
+      one short -- log 3 of 243 = 4.99.. gives 5 -- lost the leading digit although it satisfies [est_close] *)
+  Theorem antibase_base_short_refuted_pre :
+    exists est b sh ns, 2 <= b /\ Forall (fun n => 0 <= n < 2 ^ 53) ns /\ Forall (est_close est b) ns /\
+      anti_base b (fst (base_auto false est b sh ns)) (snd (base_auto false est b sh ns)) <> (sh, ns).
   Proof.
-    exists 5%nat, 3, [], [243]. split; [lia|]. split; [repeat constructor; cbn; lia|].
-    vm_compute. discriminate.
+    exists (fun _ _ => 5%nat), 3, [], [243]. split; [lia|]. split; [repeat constructor; cbn; lia|].
+    split; [repeat constructor; intros _; cbn; lia|]. vm_compute. discriminate.
   Qed.
 End BaseP.
 
@@ -281,44 +312,45 @@ Module BytesP.
     destruct big; rewrite ?rev_involutive; apply of_le_le_bytes; assumption.
   Qed.
 
-  (** ⌝bytes (bytes x) = x for every integer format wider than one byte, any endianness *)
-  Theorem decode_encode_bytes : forall f big sh ns,
-    (1 < width f)%nat -> Forall (in_range f) ns -> Z.of_nat (length ns) = zprod sh ->
-    decode f big (fst (encode f big sh ns)) (snd (encode f big sh ns)) = Some (sh, ns).
+  Lemma enc1_byte : forall big a, 0 <= a <= 255 -> enc1 {| signed := false; width := 1 |} big a = [a].
   Proof.
-    intros f big sh ns Hw Hf Hlen. unfold encode, decode. cbn [fst snd].
-    destruct (Nat.eqb_spec (width f) 1) as [E|E]; [lia|].
-    rewrite andb_false_r. rewrite rev_snoc_shape, rev_involutive, Z.eqb_refl.
-    f_equal. f_equal. rewrite chunks_concat.
-    - rewrite map_map. rewrite <- Hlen, Nat2Z.id.
-      replace (map (fun x => dec1 f big (enc1 f big x)) ns) with ns.
-      + apply firstn_all.
-      + rewrite <- (map_id ns) at 1. apply map_ext_in. intros n Hin. symmetry. apply dec1_enc1; [lia|].
-        rewrite Forall_forall in Hf. apply Hf. assumption.
-    - lia.
-    - rewrite Forall_forall. intros r Hr. rewrite in_map_iff in Hr. destruct Hr as [n [<- _]]. apply enc1_length.
-    - apply (concat_length_ge (width f)); [lia|].
-      rewrite Forall_forall. intros r Hr. rewrite in_map_iff in Hr. destruct Hr as [n [<- _]]. apply enc1_length.
-  Qed.
-
-  (** u8 is the identity in both directions *)
-  Theorem decode_encode_u8 : forall big sh ns, Forall (in_range {| signed := false; width := 1 |}) ns ->
-    decode {| signed := false; width := 1 |} big (fst (encode {| signed := false; width := 1 |} big sh ns))
-           (snd (encode {| signed := false; width := 1 |} big sh ns)) = Some (sh, ns).
-  Proof.
-    intros big sh ns Hf. unfold decode, encode. cbn [fst snd signed width negb andb Nat.eqb].
-    f_equal. f_equal. induction ns; cbn [map concat]; [reflexivity|].
-    inversion Hf; subst. rewrite IHns by assumption.
-    unfold enc1, le_bytes. cbn [width digits]. unfold clamp. unfold in_range, lo, hi, bitsz in *. cbn [signed width] in *.
-    change (8 * Z.of_nat 1) with 8 in *. change (2 ^ 8) with 256 in *.
+    intros big a Ha. unfold enc1, le_bytes, clamp, lo, hi, bitsz. cbn [signed width digits].
+    change (8 * Z.of_nat 1) with 8. change (2 ^ 8) with 256.
     replace (Z.max 0 (Z.min (256 - 1) a)) with a by lia.
     rewrite Z.mod_mod by lia. rewrite Z.mod_small by lia. destruct big; reflexivity.
   Qed.
 
-  (** the i8 format does not round-trip: the encoder adds no axis, the decoder removes one *)
-  Theorem decode_encode_i8_refuted :
+  (** ⌝bytes f (bytes f x) = x for EVERY integer format (1-byte formats included), any endianness *)
+  Theorem decode_encode_bytes : forall f big sh ns,
+    (0 < width f)%nat -> Forall (in_range f) ns -> Z.of_nat (length ns) = zprod sh ->
+    decode true f big (fst (encode f big sh ns)) (snd (encode f big sh ns)) = Some (sh, ns).
+  Proof.
+    intros f big sh ns Hw Hf Hlen. unfold encode, decode. cbn [fst snd].
+    assert (Hrows : Forall (fun r => length r = width f) (map (enc1 f big) ns)).
+    { rewrite Forall_forall. intros r Hr. rewrite in_map_iff in Hr. destruct Hr as [n [<- _]]. apply enc1_length. }
+    assert (Hdec : map (fun x => dec1 f big (enc1 f big x)) ns = ns).
+    { rewrite <- (map_id ns) at 2. apply map_ext_in. intros n Hin. apply dec1_enc1; [lia|].
+      rewrite Forall_forall in Hf. apply Hf. assumption. }
+    destruct (Nat.eqb_spec (width f) 1) as [E|E].
+    - destruct (signed f) eqn:Es; cbn [negb andb].
+      + (* i8 *)
+        f_equal. f_equal. rewrite <- E. rewrite chunks_concat; [| lia | assumption | apply (concat_length_ge (width f)); [lia | assumption]].
+        rewrite map_map, Hdec, <- Hlen, Nat2Z.id. apply firstn_all.
+      + (* u8 *)
+        f_equal. f_equal. destruct f as [sg w]. cbn [signed width] in *. subst sg w.
+        clear - Hf. induction ns; cbn [map concat]; [reflexivity|]. inversion Hf; subst.
+        rewrite IHns by assumption. rewrite enc1_byte; [reflexivity|].
+        unfold in_range, lo, hi, bitsz in H1. cbn in H1. lia.
+    - rewrite andb_false_r. cbn [andb]. rewrite rev_snoc_shape, rev_involutive, Z.eqb_refl.
+      f_equal. f_equal. rewrite chunks_concat; [| lia | assumption | apply (concat_length_ge (width f)); [lia | assumption]].
+      rewrite map_map, Hdec, <- Hlen, Nat2Z.id. apply firstn_all.
+  Qed.
+
+  (** record of the defect repaired by 821d336: before it the i8 format did not round-trip
+      (the encoder adds no axis, the decoder removed one) *)
+  Theorem decode_encode_i8_refuted_pre :
     exists big sh ns, Forall (in_range {| signed := true; width := 1 |}) ns /\ Z.of_nat (length ns) = zprod sh /\
-      decode {| signed := true; width := 1 |} big (fst (encode {| signed := true; width := 1 |} big sh ns))
+      decode false {| signed := true; width := 1 |} big (fst (encode {| signed := true; width := 1 |} big sh ns))
              (snd (encode {| signed := true; width := 1 |} big sh ns)) <> Some (sh, ns).
   Proof.
     exists false, [3], [1; 2; 3]. split; [repeat constructor; cbn; lia|]. split; [reflexivity|].
